@@ -31,6 +31,7 @@ const (
 	vEACCES
 	vEIO
 	vEBADF
+	vENAMETOOLONG
 )
 
 func (e vErrno) Error() string {
@@ -55,6 +56,8 @@ func (e vErrno) Error() string {
 		return "directory not empty"
 	case vEACCES:
 		return "permission denied"
+	case vENAMETOOLONG:
+		return "file name too long"
 	}
 	return "input/output error"
 }
@@ -178,6 +181,9 @@ func vResolve(path string, followLast bool, depth int) ([]string, int, vErrno) {
 	}
 	if depth > 8 {
 		return nil, -1, vELOOP
+	}
+	if len(path) >= 4096 { // PATH_MAX counts the terminating NUL
+		return nil, -1, vENAMETOOLONG
 	}
 	var cur []string
 	if path[0] != '/' {
